@@ -110,8 +110,10 @@ def scenarios(tier: str) -> List[Dict[str, Any]]:
         for mc in mod_cfgs:
             for mono in (True, False):
                 for charges in ([1], [1, 2, 3, 4]):
+                  # both entry points: fragment() and the caching Fragmenter class (its own monoisotopic setting, cached components)
+                  for entry in ("function", "Fragmenter"):
                     sc: Dict[str, Any] = {"seq": seq, "mono": mono, "charges": charges, "isotopes": [0], "loss_cfg": {},
-                                          "ions": list(c04.ALL16)}
+                                          "ions": list(c04.ALL16), "entry": entry}
                     for key, val in mc.items():
                         if key == "internal":
                             sc["internal"] = {("0" if kk == "0" else str(n - 1)): v for kk, v in val.items()}
@@ -119,6 +121,15 @@ def scenarios(tier: str) -> List[Dict[str, Any]]:
                             sc[key] = val
                     out.append(sc)
     return out
+
+
+def frags_of(sc, ann):
+    """the fragment ions through the scenario's entry point"""
+    from peptacular.fragmentation import fragment, Fragmenter
+    kw = c04._frag_kwargs(sc)
+    if sc.get("entry") == "Fragmenter":
+        return Fragmenter(ann.copy(), sc["mono"]).fragment(return_type="fragment", **{k: v for k, v in kw.items() if k != "monoisotopic"})
+    return fragment(ann.copy(), return_type="fragment", **kw)
 
 
 def check_scenario(sc: Dict[str, Any], excl=()) -> Obligation:
@@ -146,7 +157,7 @@ def check_scenario(sc: Dict[str, Any], excl=()) -> Obligation:
             for nm, v in list(env.symbols.items()):
                 SR.assume(z3.And(SR.T(v) > 0, SR.T(v) < 1000))
             ann = MM.build(sc, V)
-            frs = fragment(ann.copy(), return_type="fragment", **c04._frag_kwargs(sc))
+            frs = frags_of(sc, ann)
             M = mass(ann.copy(), charge=0, ion_type="p", monoisotopic=mono)
         # the oracle's elements must not be the library's: formula modifications use the independent table too
         oenv = _OracleEnv(env, mono)
@@ -169,7 +180,7 @@ def check_scenario(sc: Dict[str, Any], excl=()) -> Obligation:
     def replay(model):
         return native_replay(sc, model, excl)
 
-    oid = "chem/" + "/".join([sc["seq"], "mono" if mono else "avg", "z=" + str(sc["charges"]).replace(" ", ""),
+    oid = "chem/" + "/".join([sc["seq"], "mono" if mono else "avg", "via=" + sc.get("entry", "function"), "z=" + str(sc["charges"]).replace(" ", ""),
                               "mods=" + ("+".join(k for k in ("nterm", "cterm", "internal") if sc.get(k)) or "-")]) + \
           ("/minus-" + "-".join(excl) if excl else "")
     ob = run_e2(oid, "b_i + y_(n-i) = M + 2p; every series sits at its chemical offset (independent atomic masses) from the span's "
@@ -219,7 +230,7 @@ def main(p):
     n = len(sc["seq"])
     off = c05.offsets(mono)
     problems, sites = [], set()
-    frs = fragment(ann.copy(), return_type="fragment", **c04._frag_kwargs(sc))
+    frs = c05.frags_of(sc, ann)
     M = pt.mass(ann.copy(), charge=0, ion_type="p", monoisotopic=mono)
     class E:
         def aa(self, l, mono): return float(O.formula_mass(O.RESIDUES[l], mono))
